@@ -258,6 +258,19 @@ CLAIMED = {
         note=COMMON_NOTE + 'Assumed: pool configuration well-formed (cloud gcp/azure, worker type in the cloud\'s table, 1 <= worker_cores <= 256 - the driver validates against possible_cores_from_worker_type, syntactic obligation); specification data for per-core memory, disk maxima and the 10 GiB minimum (real machine tables checked to agree); IEEE-754 relative-error model without overflow; 64-bit model of the bit trick below 2^61; C25 parser contracts; prices opaque (which satisfying pool is cheapest is not decided); the front end is verified on the resource section of the per-job loop body plus syntactic obligations on the statements around it. In this fork convert_requests_to_resources has no local-ssd/data-disk comparison, so storage only has the per-cloud maximum. machine_type == "" ends in an AssertionError (500), allowed as a rejection.',
         technique='modular contracts on the real functions (pyvc: callee contracts with Optional results, loop invariants over the pool list, relative-error float model) -> z3; AST obligations for the call-site context; exhaustive native enumeration as bounded stand-in for two float helpers; native replay of every contract on the real modules',
         design_ref='7/C12',
+    'C14': dict(
+        text='(1) The real wrapper coroutines (gear.auth authenticated_users_only / authenticated_developers_only, front_end authenticated_developers_or_auth_only / billing_project_users_only, web_common security headers) executed symbolically with the handler as an oracle: '
+        'the handler is reached only with the userdata the authenticator returned, only for state != inactive, for developers-only only when is_developer is truthy (discharged for the int, bool and null JSON representations, `is`-identity modelled), '
+        'for billing_project_users_only only after _user_can_access(app db, int(path batch_id), username) said yes and with that id; every other exit raises 401/redirect (no user), 403 (inactive), 404 (no access) with the handler uncalled; no call outside the modelled ones. '
+        '(2) The embedded SQL is parsed and given LEFT/INNER JOIN, ON/WHERE and NULL semantics by sqlvc; z3 decides that _user_can_access is true exactly for a member of the batch\'s billing project, and that the gating query of _create_jobs, _create_job_groups.insert, _create_batch_update.update, commit_update (close_batch: query cannot execute) '
+        'implies a row of batches with the request\'s batch id, user = caller and NOT deleted, that 404 is raised without it and that every write statement / writing helper is reached only under it; route handlers pass int(path batch_id) and the authenticated user to the helpers; _create_batch inserts only for the caller into a project they belong to. '
+        '(3) Every @routes.<verb>(path) handler and every registration in run() is classified by a data-driven policy derived from the property text (exempt / batch-scoped / owner-only / new-batch / billing-administration / other); exactly one class each, protection of the class present with only transparent decorators above it, closed-world checks on the table object, the authenticator and the wrapper composition.',
+        note=COMMON_NOTE + 'Assumed: what _fetch_userdata answers (auth service) is an oracle returning None or a UserData mapping; aiohttp dispatch, functools.wraps and the middlewares are transparent; strings are integer codes compared for equality (collations not modelled); reads of one request see one database state; handler/helper composition is by call name. '
+        'Not decided: listing endpoints\' dynamically built queries, job-level ids inside batch-scoped handlers, the driver\'s routes, TrustedSingleTenantAuthenticator. '
+        'OPEN on the unchanged tree (reported, not suppressed): _create_batch_update\'s token lookup has no owner conjunct, so POST .../update-fast with an empty bunch lets a non-owner who replays an update token commit the owner\'s update (replayed on the real code), and POST .../updates/create answers such a caller with the update\'s ids; GET /metrics is registered outside the table without authentication.',
+        technique='contracts on the real wrappers/handlers (pyvc symbolic execution, handler and helpers as oracles with call-site obligations), embedded SQL -> sqlvc predicates decided by z3, exhaustive AST obligations over the route table; native replays with stub requests and sqlite',
+        engine='pyvc+sqlvc',
+        design_ref='7/C14',
     ),
     'C34': dict(
         text='For ploidy 0, 1, 2 and both phasings, over all alleles in range: the int32 written by the real _tcall._convert_to_encoding (Python ints as 64-bit vectors with no-overflow obligations) is bit-for-bit the Call built by the real Scala Call0/Call1/Call2.apply (parsed and translated by vc/scvc.py, 32-bit JVM semantics), equals the specified packing phased | ploidy<<1 | (k(k+1)/2+j)<<3, neither side raises; '
@@ -320,7 +333,7 @@ def manifest():
         'engines': [
             {'name': 'vcore', 'path': 'vc/core.py', 'serves_properties': sorted(CLAIMED), 'kind_free_text': 'obligation discharge (z3, cvc5 fallback), verdicts, evidence'},
             {'name': 'relang', 'path': 'vc/relang.py', 'serves_properties': [p for p in ('C25', 'C28') if p in CLAIMED], 'kind_free_text': 'string predicates / regex literals -> regular languages'},
-            {'name': 'sqlvc', 'path': 'vc/sqlvc.py', 'serves_properties': [p for p in ('C01','C02','C03','C04','C05','C06','C07','C09','C10','C41') if p in CLAIMED], 'kind_free_text': 'MySQL stored programs (migrations replayed) -> symbolic execution over an abstract database'},
+            {'name': 'sqlvc', 'path': 'vc/sqlvc.py', 'serves_properties': [p for p in ('C01','C02','C03','C04','C05','C06','C07','C09','C10','C14','C41') if p in CLAIMED], 'kind_free_text': 'MySQL stored programs (migrations replayed) -> symbolic execution over an abstract database'},
             {'name': 'segments', 'path': 'vc/segments.py', 'serves_properties': [p for p in ('C16', 'C24', 'C26', 'C40') if p in CLAIMED], 'kind_free_text': 'atomic segments / rely-guarantee for asyncio monitors'},
             {'name': 'pyvc', 'path': 'vc/pyvc.py', 'serves_properties': [p for p in sorted(CLAIMED) if p not in ('C28',)], 'kind_free_text': 'Python AST -> verification conditions (symbolic execution with contracts and loop invariants)'},
         ],
